@@ -20,7 +20,8 @@ package request
 //@ ghost var nonceVal int
 
 //@ func Verify
-//@ property C04 C15
+//@ property C04
+//@ trusted the body (dispatch to NodeRequest.Verify / AddressRequest.Verify and the crypto below them) is not yet under contract
 //@ defines [auth-ok]   err == nil ==> authOK && authMethod == method && authID == pubkey && authNonce == nonce && authArgs == args
 //@ defines [auth-fail] err != nil ==> authOK == old(authOK) && authMethod == old(authMethod) && authID == old(authID) && authNonce == old(authNonce) && authArgs == old(authArgs)
 //@ ensures [errkind]   !typeis(err, pool.VerifyFailedError) && !typeis(err, balance.LowBalanceError)
